@@ -502,12 +502,27 @@ Definition vundo1 (s : state) (e : ventry) : option state :=
     end
   | VDelete a old => let s1 := set_validator s old in with_stat s1 (incr_stat (stat_ s1) old)
   | VUpdate a nw old =>
+    (* the record that is taken out of the statistics is the one stored now (7813a3d), not *newVal *)
+    let cur := match aget (vmap s) a with Some c => c | None => nw end in
+    let s1 := set_validator s old in
+    if stake_equal cur old then Some s1
+    else match decr_stat (stat_ s1) cur with
+         | None => None
+         | Some st1 => with_stat s1 (incr_stat st1 old)
+         end
+  end.
+
+(* before 7813a3d: the undo of an update subtracted *newVal, whatever that object had become *)
+Definition vundo1_old (s : state) (e : ventry) : option state :=
+  match e with
+  | VUpdate a nw old =>
     let s1 := set_validator s old in
     if stake_equal nw old then Some s1
     else match decr_stat (stat_ s1) nw with
          | None => None
          | Some st1 => with_stat s1 (incr_stat st1 old)
          end
+  | _ => vundo1 s e
   end.
 
 Definition aundo1 (s : state) (e : aentry) : state :=
@@ -552,6 +567,22 @@ Fixpoint vundo_to (fuel : nat) (s : state) (n : nat) : option state :=
     end
   end.
 
+Fixpoint vundo_to_old (fuel : nat) (s : state) (n : nat) : option state :=
+  match fuel with
+  | O => Some s
+  | S f =>
+    match vjournal s with
+    | [] => Some s
+    | e :: r =>
+      if Nat.ltb n (length (vjournal s)) then
+        match vundo1_old (w_vjournal s r) e with
+        | None => None
+        | Some s' => vundo_to_old f s' n
+        end
+      else Some s
+    end
+  end.
+
 Definition snapshot (s : state) : state :=
   w_next_id (w_revs s ((next_id s, (length (ajournal s), length (vjournal s))) :: revs s)) (next_id s + 1).
 
@@ -567,6 +598,17 @@ Definition revert (s : state) (id : Z) : option state :=
   | Some (aj, vj) =>
     let s1 := aundo_to (length (ajournal s)) s aj in
     match vundo_to (length (vjournal s1)) s1 vj with
+    | None => None
+    | Some s2 => Some (w_revs s2 (drop_revs (revs s2) id))
+    end
+  end.
+
+Definition revert_old (s : state) (id : Z) : option state :=
+  match aget (revs s) id with
+  | None => None
+  | Some (aj, vj) =>
+    let s1 := aundo_to (length (ajournal s)) s aj in
+    match vundo_to_old (length (vjournal s1)) s1 vj with
     | None => None
     | Some s2 => Some (w_revs s2 (drop_revs (revs s2) id))
     end
@@ -775,13 +817,11 @@ Definition step (s : state) (o : op) : option state :=
     | (s1, Some old) => update_validator s1 (set_oid (apply_upd old u) (fresh_oid s1)) old
     end
   | OUpdateIn a u =>
-    (* the live object keeps its place in the cache and in the journal entries that point at it; in the
-       model it takes a fresh identity together with those entries, and the copy keeps the old one *)
+    (* the stored object is written and stays stored; nothing reads the pointer of a journal entry any more
+       (7813a3d), so only the values matter: the same as OUpdate *)
     match get_validator s a with
     | (s1, None) => Some s1
-    | (s1, Some old) =>
-      let nw := set_oid (apply_upd old u) (fresh_oid s1) in
-      update_validator (w_vjournal s1 (map (retarget a old nw) (vjournal s1))) nw old
+    | (s1, Some old) => update_validator s1 (set_oid (apply_upd old u) (fresh_oid s1)) old
     end
   | ORemove a => remove_validator s a
   | ODelegate d a amt =>
@@ -798,10 +838,33 @@ Definition step (s : state) (o : op) : option state :=
   | OList => list_for_update s
   end.
 
+(* the implementation before 7813a3d (selected by the harness when it detects that behaviour in the tree it
+   runs against, so that the comparison stays meaningful and the oracle reports the defect): journal entries
+   hold newVal by pointer and their undo reads it.  The live object keeps its place in the cache and in the
+   entries that point at it; in the model it takes a fresh identity together with those entries, and the
+   copy keeps the old one *)
+Definition step_old (s : state) (o : op) : option state :=
+  match o with
+  | OUpdateIn a u =>
+    match get_validator s a with
+    | (s1, None) => Some s1
+    | (s1, Some old) =>
+      let nw := set_oid (apply_upd old u) (fresh_oid s1) in
+      update_validator (w_vjournal s1 (map (retarget a old nw) (vjournal s1))) nw old
+    end
+  | ORevert id => revert_old s id
+  | _ => step s o
+  end.
+
 Fixpoint run (s : state) (l : list op) : option state :=
   match l with
   | [] => Some s
   | o :: r => match step s o with None => None | Some s' => run s' r end
+  end.
+Fixpoint run_old (s : state) (l : list op) : option state :=
+  match l with
+  | [] => Some s
+  | o :: r => match step_old s o with None => None | Some s' => run_old s' r end
   end.
 
 (* value-level view of a validator: scalars + delegation list *)
@@ -978,13 +1041,13 @@ Definition obs (uv ua : list Z) (s : state) : list Z :=
   ++ nz (length (adirty s)) :: adirty s.
 
 (* hashes of the observation after every op that did not panic *)
-Fixpoint trace (uv ua : list Z) (s : state) (l : list op) : list Z * bool :=
+Fixpoint trace (pre : bool) (uv ua : list Z) (s : state) (l : list op) : list Z * bool :=
   match l with
   | [] => ([], false)
   | o :: r =>
-    match step s o with
+    match (if pre then step_old s o else step s o) with
     | None => ([], true)
-    | Some s' => let '(t, p) := trace uv ua s' r in (hash_list (obs uv ua s') :: t, p)
+    | Some s' => let '(t, p) := trace pre uv ua s' r in (hash_list (obs uv ua s') :: t, p)
     end
   end.
 
@@ -993,16 +1056,18 @@ Record case := mkCase {
   c_hashes : list Z;      (* implementation: hash of the observation after each completed op *)
   c_panic : bool }.       (* implementation panicked in the op after the last hash *)
 
-Definition case_ok (c : case) : bool :=
-  let '(t, p) := trace (c_uv c) (c_ua c) init (c_ops c) in
+(* pre = the harness found the behaviour from before 7813a3d in the tree it ran against *)
+Definition case_ok (pre : bool) (c : case) : bool :=
+  let '(t, p) := trace pre (c_uv c) (c_ua c) init (c_ops c) in
   list_eqb Z.eqb t (c_hashes c) && Bool.eqb p (c_panic c).
 
-Fixpoint mismatches_from (i : N) (l : list case) : list N :=
+Fixpoint mismatches_from (pre : bool) (i : N) (l : list case) : list N :=
   match l with
   | [] => []
-  | c :: r => if case_ok c then mismatches_from (i + 1)%N r else i :: mismatches_from (i + 1)%N r
+  | c :: r => if case_ok pre c then mismatches_from pre (i + 1)%N r else i :: mismatches_from pre (i + 1)%N r
   end.
-Definition mismatches := mismatches_from 0%N.
+Definition mismatches := mismatches_from false 0%N.
+Definition mismatches_pre_7813a3d := mismatches_from true 0%N.
 
 (* debugging aid: the raw observations of a case *)
 Fixpoint obs_trace (uv ua : list Z) (s : state) (l : list op) : list (list Z) :=
